@@ -175,6 +175,9 @@ void target_run(Tape &t)
 	unsigned cutsel = t.u8();
 	bool want_cut = cutsel < 64;
 	if (want_cut) L.cut_after = (long)t.range(0, 400);
+	// ... or exactly while br_sslio_close() is at work: at its k-th transport call (pending data and the close_notify
+	// still to be written, or the peer's close_notify still to be read)
+	long cut_in_close = cutsel >= 64 && cutsel < 112 ? (long)t.range(0, 5) : -1;
 	br_sslio_context io;
 	br_sslio_init(&io, L.io_ep->eng, cb_read, &L, cb_write, &L);
 	std::string hist;
@@ -233,8 +236,10 @@ void target_run(Tape &t)
 			if (!L.io_ep->handshake_done()) { r = br_sslio_flush(&io); if (r < 0) { failed = true; hist += "flush=-1 "; break; } }
 			if (!L.io_ep->handshake_done()) break;
 			size_t sent_before = L.io_sent;
+			if (cut_in_close >= 0 && L.cut_after < 0) { L.cut_after = (long)L.calls + cut_in_close; hist += fmt("(transport fails at call %ld of close) ", cut_in_close); stats.cls("cut-armed-inside-close"); }
 			r = br_sslio_close(&io);
 			hist += fmt("close=%d ", r);
+			if (L.cut_done) stats.cls("cut-hit-inside-close");
 			if (r == 1) {
 				closed_clean = true;
 				pump_peer(L);
